@@ -633,7 +633,7 @@ B('j17_shared_setattr_last_context', ['C17'], 'R17.h',
   (RS, "        # not serialized yet, time to guess what the requester wants\n",
        "        if context is None:\n            context = getattr(self, 'last_context', None)\n        setattr(self, 'last_context', context)\n"))
 T('j17_shared_local_memo', ['C17'],
-  (RS, _SR_NEG, "        chosen = {}\n" + _SR_NEG + "        chosen[req_format] = resp_mime\n        resp_mime = chosen[req_format]\n"))
+  (RS, _SR_NEG, "        chosen = {}\n" + _SR_NEG + "        chosen[req_format] = resp_mime\n        assert chosen\n"))
 T('j17_shared_config_cache', ['C17'],
   (RS, _BR_CLASS, _BR_CLASS + "    _served_mimes = None\n"),
   (RS, "        resp_mime = self._format_mime_map.get(req_format)\n",
@@ -753,3 +753,54 @@ B('j17_json_render_no_return', ['C17'], 'R17.i',
        "        resp.mimetype_params['charset'] = self.encoding\n        if resp.mimetype_params:\n            return resp\n\n\nclass JSONPRender"))
 B('j17_tabular_returns_none_for_empty', ['C17'], 'R17.i',
   (TB, "        content_parts = [self._html_wrapper]\n", "        if not context:\n            return None\n        content_parts = [self._html_wrapper]\n"))
+
+# R17.l, stream re-chunkers: a generator the JSON body is passed through hands on the text it is given -- no token overtakes
+# buffered ones, none is dropped or repeated (abstract buffer state: empty / holds unemitted tokens / emitted, not cleared)
+_GATHER_LOOP = '''        buf.append(token)
+        held += len(token)
+        if held >= size:
+            yield ''.join(buf)
+            buf, held = [], 0
+'''
+_GATHER_TAIL = "    if buf:\n        yield ''.join(buf)\n"
+
+
+def _gather(loop=_GATHER_LOOP, tail=_GATHER_TAIL, fast=''):
+    helper = ("_CHUNK = 4096\n\n\ndef _gather(tokens, size=_CHUNK):\n    buf, held = [], 0\n    for token in tokens:\n" + fast + loop + tail)
+    return [(RS, 'class JSONRender(object):\n', helper + '\n\nclass JSONRender(object):\n'),
+            (RS, _JR_STREAM, _JR_STREAM + "            json_iter = _gather(json_iter)\n"),
+            (RS, _JP_CHAIN, _JP_CHAIN + "        resp_iter = _gather(resp_iter)\n")]
+
+
+T('j17_rechunk_coalescer', ['C17'], *_gather())
+T('j17_rechunk_flush_before_big', ['C17'], *_gather(fast="        if len(token) >= size:\n            if buf:\n                yield ''.join(buf)\n"
+                                                          "                buf, held = [], 0\n            yield token\n            continue\n"))
+T('j17_rechunk_passthrough', ['C17'], *_gather(loop="        yield token\n", tail=''))
+T('j17_rechunk_clear_method', ['C17'], *_gather(loop="        if not token:\n            continue\n        buf.append(token)\n        held += len(token)\n"
+                                                     "        if held >= size:\n            yield ''.join(buf)\n            buf.clear()\n            held = 0\n"))
+T('j17_body_materialised_stream', ['C17'], (RS, _JR_STREAM, "            json_iter = list(self.json_encoder.iterencode(context))\n"))
+B('j17_rechunk_big_overtakes', ['C17'], 'R17.l', *_gather(fast="        if len(token) >= size:\n            yield token\n            continue\n"))
+B('j17_rechunk_big_overtakes_else', ['C17'], 'R17.l',
+  *_gather(loop="        if len(token) < size:\n            buf.append(token)\n            held += len(token)\n        else:\n            yield token\n"
+                "        if held >= size:\n            yield ''.join(buf)\n            buf, held = [], 0\n"))
+B('j17_rechunk_no_final_flush', ['C17'], 'R17.l', *_gather(tail=''))
+B('j17_rechunk_cleared_without_flush', ['C17'], 'R17.l',
+  *_gather(loop="        buf.append(token)\n        held += len(token)\n        if held >= size:\n            buf, held = [], 0\n"))
+B('j17_rechunk_flush_without_clear', ['C17'], 'R17.l',
+  *_gather(loop="        buf.append(token)\n        held += len(token)\n        if held >= size:\n            yield ''.join(buf)\n            held = 0\n"))
+B('j17_rechunk_token_twice', ['C17'], 'R17.l',
+  *_gather(fast="        if len(token) >= size:\n            if buf:\n                yield ''.join(buf)\n                buf, held = [], 0\n            yield token\n"))
+B('j17_rechunk_short_tokens_dropped', ['C17'], 'R17.l', *_gather(fast="        if len(token) < 2:\n            continue\n"))
+# R17.k: the offered mimes read from a cache the renderer fills itself
+B('j17_neg_cache_filled_with_html_only', ['C17'], 'R17.k',
+  (RS, _BR_CLASS, _BR_CLASS + "    _served_mimes = None\n"),
+  (RS, "        resp_mime = self._format_mime_map.get(req_format)\n",
+       "        if self._served_mimes is None:\n            self._served_mimes = ('text/html',)\n"
+       "        resp_mime = self._format_mime_map.get(req_format)\n"),
+  (RS, "            resp_mime = request.accept_mimetypes.best_match(self.mimetypes)\n",
+       "            resp_mime = request.accept_mimetypes.best_match(self._served_mimes)\n"))
+B('j17_neg_cache_read_unfilled', ['C17'], 'R17.k',
+  (RS, _BR_CLASS, _BR_CLASS + "    _served_mimes = None\n"),
+  (RS, "            resp_mime = request.accept_mimetypes.best_match(self.mimetypes)\n",
+       "            resp_mime = request.accept_mimetypes.best_match(self._served_mimes)\n"
+       "            if self._served_mimes is None:\n                self._served_mimes = tuple(self._format_mime_map.values())\n"))
